@@ -35,7 +35,7 @@ cd /repo
 if ! git diff --quiet; then echo "/repo dirty"; exit 2; fi
 git apply $src/patch.diff || exit 2
 for c in $checks; do
-  out=$(cd /verif && ./check $c --tier ${TIER:-quick} 2>&1); rc=$?
+  out=$(cd /verif && VERIF_EVIDENCE_DIR=/var/tmp/verif-evidence-scratch ./check $c --tier ${TIER:-quick} 2>&1); rc=$?
   echo "check $c rc=$rc | $(echo "$out" | grep -v "KNOWN-FINDING\|rapid\] draw" | grep "violated\|^OK\|INCONCLUSIVE\|DATA RACE" | head -1 | cut -c1-260)"
 done
 git -C /repo checkout -- . ; git -C /repo status --short | head -3
